@@ -268,7 +268,7 @@ func init() {
 	register(&property{
 		ID: "C08",
 		Meta: propMeta{
-			Level: "Structural necessary conditions of the lock discipline, decided on every path of every shim-server method: each effect (call on the underlying agent or raw connection, call of an internal server method, write to the certificate tables or the lock flag) is reached only under the must-fact 'lock flag is false' (true in Unlock); the locked edge returns a certainly-non-nil error (List: an empty list and nil); the flag is written only by Lock/Unlock, only with the right constant, only under the must-fact that the underlying agent's Lock/Unlock returned nil, and the passphrase reaches the underlying agent unchanged. It does not decide the underlying agent's own lock semantics.",
+			Level:       "Structural necessary conditions of the lock discipline, decided on every path of every shim-server method: each effect (call on the underlying agent or raw connection, call of an internal server method, write to the certificate tables or the lock flag) is reached only under the must-fact 'lock flag is false' (true in Unlock); the locked edge returns a certainly-non-nil error (List: an empty list and nil); the flag is written only by Lock/Unlock, only with the right constant, only under the must-fact that the underlying agent's Lock/Unlock returned nil, and the passphrase reaches the underlying agent unchanged. It does not decide the underlying agent's own lock semantics.",
 			Technique:   "static analysis: must-fact dataflow over branch conditions on go/ssa + field-writer census",
 			Explanation: "For the shim server type (resolved as the struct of agent/shimagent implementing agent.ExtendedAgent with a mutex; its fields resolved by type) every method body is scanned for effect sites; for each the set of branch literals holding on ALL paths from entry (forward must-dataflow over the SSA CFG) must contain the lock-flag literal with the right polarity. Returns reachable under the 'locked' literal are checked for certainly-non-nil errors by value-flow through cells/phis. The writers of the flag are enumerated over the whole repository.",
 			Assumptions: []string{"the underlying agent's Lock/Unlock implement the passphrase check (x/crypto, ssh-agent)", "go/types, go/ssa are correct; no unsafe/linkname in the repository (checked)", "mutual exclusion of operations is C11's concern"},
